@@ -1,0 +1,9 @@
+//go:build verif
+
+package meta
+
+import "github.com/hashicorp/raft"
+
+// ApplyBatch is storeFSM.ApplyBatch (what raft calls for a run of committed entries: raft.BatchingFSM), for the C15
+// replica-convergence harness. Thin wrapper only, no behaviour.
+func (f *VerifFSM) ApplyBatch(logs []*raft.Log) []interface{} { return f.fsm().ApplyBatch(logs) }
